@@ -286,6 +286,63 @@ fn c14_packed_set(c: &mut Case) -> Result<(), String> {
     Ok(())
 }
 
+/// long strings: lengths around 2^15 .. 2^17 (index-width / block-count / chunk thresholds)
+fn c14_long(c: &mut Case) -> Result<(), String> {
+    let j = c.rng.range(15, 17);
+    let r = *c.rng.pick(&[-33i64, -32, -1, 0, 1, 31, 32, 33, 100]);
+    let n = ((1i64 << j) + r) as usize;
+    let mut m = c.rng.bases(n, 4);
+    let mut x = match c.rng.below(4) {
+        0 => DnaString::from_bytes(&m),
+        1 => {
+            let mut x = DnaString::new();
+            for b in &m {
+                x.push(*b);
+            }
+            x
+        }
+        2 => DnaString::from_acgt_bytes(&m.iter().map(|b| b"ACGT"[*b as usize]).collect::<Vec<u8>>()),
+        _ => {
+            // built by several extends of awkward sizes
+            let mut x = DnaString::new();
+            let mut pos = 0;
+            while pos < n {
+                let step = (*c.rng.pick(&[1usize, 31, 32, 33, 1000, 4096, 65_535, 65_536])).min(n - pos);
+                x.extend(m[pos..pos + step].iter().cloned());
+                pos += step;
+            }
+            x
+        }
+    };
+    check_string(&x, &m, &format!("long string of {} bases", n))?;
+    // a few mutations far into the string
+    for _ in 0..4 {
+        let p = n - 1 - c.rng.below(200.min(n));
+        let b = c.rng.base();
+        x.set_mut(p, b);
+        m[p] = b;
+    }
+    let add = c.rng.bases(c.rng.range(1, 70), 4);
+    x.extend(add.iter().cloned());
+    m.extend_from_slice(&add);
+    check_string(&x, &m, &format!("long string of {} bases after set_mut/extend", n))?;
+    check_string(&x.rc(), &rc(&m), &format!("rc() of a {}-base string", m.len()))?;
+    ensure!(x.rc().rc() == x, "rc().rc() of a {}-base string is != the string", m.len());
+    let mut rv = m.clone();
+    rv.reverse();
+    check_string(&x.reverse(), &rv, &format!("reverse() of a {}-base string", m.len()))?;
+    // packed set with a long member
+    let mut set = PackedDnaStringSet::new();
+    let small = c.rng.bases(40, 4);
+    set.add(&small);
+    set.add(&m);
+    set.add(&small);
+    ensure!(set.get(1).bytes() == m && set.get(2).bytes() == small && set.get(0).bytes() == small, "PackedDnaStringSet with a {}-base member", m.len());
+    c.count("long_strings", 1);
+    c.nontrivial(H::new().u(n as u64).u(c.idx).get());
+    Ok(())
+}
+
 pub const RULE_C14: &str = "case = operation history of 1-14 steps from {new, with_capacity, blank/Vmer::new, from_bytes, from_dna_string (mixed case), from_acgt_bytes, push, extend (0, few, exactly-to-the-block-boundary, 32, 33 or random many bases; called both on and off a 32-base boundary), push_bytes, set_mut, clear, rc, reverse, clone} with lengths biased to 0,1,31,32,33,63,64,65,96,128; after EVERY step: len/get/iter/to_bytes/to_ascii_vec/Display/Debug vs the model vector, and ==, Hash, cmp, ndiffs against two fresh strings built from the model by other routes; finally rc/reverse, lexicographic cmp against prefixes/extensions/one-base variants, ndiffs counts; second group: PackedDnaStringSet add/get/slice; distinct = hash(history, final value)";
 
 pub fn run_c14(ctx: &Ctx) {
@@ -293,6 +350,8 @@ pub fn run_c14(ctx: &Ctx) {
     ctx.run_group("histories", n, false, |c| c14_case(c));
     ctx.run_group("packed_set", ctx.n(100_000, 5_000_000), false, |c| c14_packed_set(c));
     if !ctx.is_miri() {
+        ctx.run_group("long", ctx.n(60, 2000), false, |c| c14_long(c));
+        ctx.require("long_strings", 20);
         ctx.require("extend_on_block_boundary", 1000);
         ctx.require("extend_inside_block", 1000);
         ctx.require("final_len_multiple_of_32", 500);
@@ -417,7 +476,11 @@ fn check_view(v: &DnaStringSlice, m: &[u8], hist: &[String], c: &mut Case) -> Re
 }
 
 fn c15_case(c: &mut Case) -> Result<(), String> {
-    let n = match c.rng.below(5) {
+    let n = match if !c.lane_miri && c.rng.chance(1, 400) { 9 } else { c.rng.below(5) } {
+        9 => {
+            c.count("views_on_backing_longer_than_65000", 1);
+            (1usize << c.rng.range(16, 17)) + c.rng.below(100)
+        }
         0 => c.rng.below(20),
         1 => *c.rng.pick(&[255usize, 256, 257, 300]),
         _ => c.rng.below(400),
@@ -451,7 +514,11 @@ fn c15_case(c: &mut Case) -> Result<(), String> {
 
 fn c15_hamming(c: &mut Case) -> Result<(), String> {
     let fixed = [0usize, 1, 31, 32, 33, 63, 64, 65, 1023, 1024, 1025, 2047, 2048, 2049, 3071, 3072];
-    let len = if c.rng.chance(2, 3) { *c.rng.pick(&fixed) } else { c.rng.below(2600) };
+    let len = if !c.lane_miri && c.rng.chance(1, 300) {
+        // around 2^16 / 2^17 bases
+        c.count("hamming_pairs_longer_than_65000", 1);
+        (1usize << c.rng.range(16, 17)) + *c.rng.pick(&[0usize, 1, 31, 32, 33]) - c.rng.below(2) * 40
+    } else if c.rng.chance(2, 3) { *c.rng.pick(&fixed) } else { c.rng.below(2600) };
     let extra = c.rng.below(70);
     let back1 = c.rng.bases(len + extra, 4);
     // half of the time through the exact-capacity constructor, and often ending exactly at the end
@@ -528,6 +595,32 @@ fn c15_hamming(c: &mut Case) -> Result<(), String> {
     );
     ensure!(vb.hamming_dist(&va) == exp, "hamming_dist is not symmetric");
     ensure!(va.hamming_dist(&va) == 0, "hamming_dist(x, x) != 0");
+    // the same windows once more after the left string was edited in place (same address, same
+    // length): the distance must follow the contents
+    if len > 0 {
+        let mut ds1m = ds1.clone();
+        let mut ma2 = ma.clone();
+        let mut ds1 = ds1;
+        let _ = &mut ds1m;
+        let edits = c.rng.range(1, 40);
+        for _ in 0..edits {
+            let q = c.rng.below(len);
+            let nb = (ma2[q] + 1 + c.rng.below(3) as u8) & 3;
+            // view position q maps to backing position a.start + q (forward) or a.start + len - 1 - q (rc)
+            let bp = if a.is_rc { a.start + len - 1 - q } else { a.start + q };
+            ds1.set_mut(bp, if a.is_rc { 3 - nb } else { nb });
+            ma2[q] = nb;
+        }
+        let va2 = {
+            let s = ds1.slice(a.start, a.start + a.length);
+            if a.is_rc { s.rc() } else { s }
+        };
+        ensure!(va2.bytes() == ma2, "harness: edited view does not read the edited model");
+        let exp2 = ma2.iter().zip(mb.iter()).filter(|(x, y)| x != y).count() as u32;
+        let got2 = va2.hamming_dist(&vb);
+        ensure!(got2 == exp2, "hamming_dist over the same window after {} in-place edits of the left string = {}, the views differ at {} positions (length {})", edits, got2, exp2, len);
+        c.count("hamming_after_in_place_edit", 1);
+    }
     c.count("hamming_pairs", 1);
     c.count("hamming_pairs_len_ge_1024", (len >= 1024) as u64);
     c.count("hamming_pairs_with_rc_operand", (b_rc || a.is_rc) as u64);
@@ -545,6 +638,8 @@ pub fn run_c15(ctx: &Ctx) {
         ctx.require("rc_views", 1000);
         ctx.require("hamming_pairs_len_ge_1024", 1000);
         ctx.require("hamming_pairs_both_rc", 500);
+        ctx.require("hamming_pairs_longer_than_65000", 100);
+        ctx.require("views_on_backing_longer_than_65000", 100);
         ctx.require("hamming_pairs_with_dense_mismatch_range", 500);
         ctx.require("long_debug_forms", 100);
     }
